@@ -209,11 +209,11 @@ def run(ck):
         cases.append({"type": "fixture", "seed": 0, "path": "tests/data/test_nonzero.tif", "ne": 6})
     reqs, pending = [], []
     keep = []
-    for case in cases:
+    def one(case):
         built = build_case(ck, case)
         if built is None:
             ck.count("rejected_not_connected_or_empty")
-            continue
+            return
         dicts, topo, bm = built
         frame = impl.make_frame(dicts)
         keep.append(frame)
@@ -229,6 +229,9 @@ def run(ck):
         ck.count("type_" + case["type"] + ("_resampled" if case.get("ne") else ""))
         if not ve_consistent_hint(resp=None):
             pass
+
+    for case in cases:
+        ck.guard(case, one, case)
     resps = ck.driver(reqs)
     for (case, obs), resp in zip(pending, resps):
         compare(ck, obs, resp, case, None, None)
